@@ -199,23 +199,29 @@ def r3(ctx, F, sc):
         new_ok = bool(new) and new[0] and nw[0] == 'add' and strip_payload(nw[1]) == ('phi', pos) and is_bs_term(nw[2])
         pre = bool(lit_adv) and all(not _reaches_within(cfg, bi, rb, sc.head) for bi in lit_adv)
         guard = False
-        for bi in blocks:
-            for st in b.blocks[bi]['stmts']:
-                rv = st['rv']
-                if rv['k'] == 'bin' and rv['op'] == 'Lt':
-                    lhs = norm_add(term_of(fl, rv['ops'][0]))
-                    rhs_o = fl.origins(rv['ops'][1])
-                    if lhs[0] == 'add' and strip_payload(lhs[1]) == ('phi', pos) and is_bs_term(lhs[2]) and \
-                       any(o.kind == 'call' and o.key.endswith('::len') and sc.is_src(call_arg_origins(fl, o.bb, 0)) for o in rhs_o):
-                        oc = fl.outcomes(None, st['dst']['l'])
-                        te = oc.get('true', set())
-                        if te and cfg.edges_guard(te, rb):
-                            # and on the true edge the roll is unavoidable before the advance
-                            un = True
-                            for (s, t, lab) in te:
-                                if set(lit_adv) & cfg.reach(t, cut_blocks=[rb]):
-                                    un = False
-                            guard = un
+
+        def is_pos_plus_bs(op_):
+            lhs = norm_add(term_of(fl, op_))
+            return lhs[0] == 'add' and strip_payload(lhs[1]) == ('phi', pos) and is_bs_term(lhs[2])
+
+        def is_src_len(op_):
+            os_ = [o for o in fl.origins(op_) if o.kind != 'comb']
+            return bool(os_) and all(o.kind == 'call' and o.key.endswith('::len') and sc.is_src(call_arg_origins(fl, o.bb, 0)) for o in os_)
+        lt_e = order_edges(fl, is_pos_plus_bs, is_src_len, strict=True)      # pos + block_size < len, in any spelling
+        for tb_ in sorted({e[0] for e in lt_e if e[0] in blocks}):
+            te = {e for e in lt_e if e[0] == tb_}
+            if te and cfg.edges_guard(te, rb):
+                # and on that edge the roll is unavoidable before the cursor advances (or the iteration ends)
+                un = True
+                for (s, t, lab) in te:
+                    r_ = cfg.reach(t, cut_blocks=[rb, sc.head])
+                    if set(lit_adv) & r_ and not all(_reaches_within(cfg, rb, bi, sc.head) or True for bi in lit_adv):
+                        un = False
+                    # the iteration must not end without the roll
+                    back = {s2 for (s2, t2) in cfg.back_edges() if t2 == sc.head}
+                    if back & cfg.reach(t, cut_blocks=[rb]):
+                        un = False
+                guard = guard or un
         on_miss = not cfg.edges_guard(some_e, rb)
         ok = old_ok and new_ok and pre and guard and on_miss
         why = 'outgoing byte source[pos]: %s; incoming byte source[pos+block_size]: %s; before the advance: %s; iff pos+block_size < len: %s; on the miss path: %s' % (old_ok, new_ok, pre, guard, on_miss)
